@@ -379,8 +379,36 @@ def r18_8(F, R):
         R.ok("R18.8", "parse_number/sign", "%d negation(s) reach a dimension token, each over integer + fraction" % n, loc0, how="def-use")
 
 
+def r18_9(F, R):
+    from ..facts import callee_name
+    R.rule("R18.9", "characters are counted as characters: a function of boxworks::lang that turns a string into a single `char` (Option<char> / "
+                    "Result<char, ..> result) decides 'exactly one character' by iterating `chars()`, never by the byte length `str::len` — a "
+                    "ligature or character argument outside ASCII has a UTF-8 length above 1 and would be rejected although the printer wrote it")
+    n = 0
+    for fn in sorted(F.fns.values(), key=lambda f: f.name):
+        if not fn.name.startswith("<char as boxworks::lang::") and not (fn.name.startswith("boxworks::lang::") and fn.local_ty(0) in ("core::option::Option<char>",)):
+            continue
+        if fn.local_ty(0) != "core::option::Option<char>" and not fn.local_ty(0).startswith("core::result::Result<char"):
+            continue
+        if not any("str" in fn.local_ty(i) for i in range(1, fn.argc + 1)):
+            continue
+        n += 1
+        calls = [strip_generics(callee_name(t) or "") for bi, t in fn.calls()]
+        inst = strip_generics(fn.name).replace("boxworks::lang::", "")
+        lens = [c for c in calls if c.endswith("<impl str>::len") or c.endswith("String::len")]
+        if lens:
+            R.violation("R18.9", inst + "/byte-length", "%s decides on a single character with the byte length `str::len`: any character outside ASCII is "
+                        "rejected (its UTF-8 encoding is longer than one byte)" % fn.name, "%s:%d" % (fn.file, fn.line))
+        elif any(c.endswith("<impl str>::chars") for c in calls):
+            R.ok("R18.9", inst, "iterates chars()", "%s:%d" % (fn.file, fn.line), how="use-set")
+        else:
+            R.ok("R18.9", inst, "no byte length involved", "%s:%d" % (fn.file, fn.line), how="use-set")
+    R.floor("R18.9", "string-to-char conversions in boxworks::lang", n, 1)
+
+
 def run(F, R, tier):
     r18_1(F, R)
+    r18_9(F, R)
     r18_8(F, R)
     r18_6(F, R)
     r18_5(F, R)
